@@ -852,3 +852,260 @@ Section Static.
         eapply Forall_impl; [|exact Hc]. intros a [? K]. auto.
   Qed.
 End Static.
+
+(* ====================================================================================== *)
+(* Part 4: C04 — hints at a vertex: static, dynamic, mandatory edges, binding               *)
+(* ====================================================================================== *)
+Lemma debug_assert_passthrough (c0 r : option (cand fv)) s :
+  match c0 with
+  | Some (CRange (mkRange Unb Unb true)) => Panic s
+  | _ => Ok c0
+  end = Ok r -> c0 = r.
+Proof.
+  destruct c0 as [[|x|l|[[?|?|] [?|?|] []]|]|]; cbn; intros H; try discriminate; now injection H.
+Qed.
+
+Lemma filter_In_fst {A} (p : A -> bool) l x r : filter p l = x :: r -> In x l /\ p x = true.
+Proof. intros H. assert (In x (filter p l)) by (rewrite H; now left). now apply filter_In in H0. Qed.
+
+Section Vertex.
+  Variable re : string -> string -> option bool.
+  Variable q : ir_query.
+  Variable args : list (string * fv).
+  Hypothesis Hargs : args_wf args.
+
+  (* filter_passes (Sem.v) with ANY operand value implies the static reading of the filter *)
+  Lemma filter_passes_static op arg v (av : argument -> tagged) :
+    (forall x t, av (AVar x t) = TSome (match lookup_str x args with Some w => w | None => Null end)) ->
+    filter_passes re op true v (option_map av arg) = true -> static_passes re args (op, arg) v = true.
+  Proof.
+    intros Hav. unfold filter_passes, static_passes. cbn [negb fst snd].
+    destruct (opk_unary op); [auto|].
+    destruct arg as [[r|x t]|]; cbn [option_map]; try reflexivity.
+    rewrite Hav. destruct (lookup_str x args); auto.
+  Qed.
+
+  Definition nullability_respected (vtx : ir_vertex) (p : string) (v : fv) : Prop :=
+    forall f, In f (v_filters vtx) -> vf_field f = p -> ty_nullable (vf_fty f) = false -> fv_is_null v = false.
+
+  Definition static_filters_pass (vtx : ir_vertex) (p : string) (v : fv) : Prop :=
+    forall f, In f (v_filters vtx) -> vf_field f = p -> is_static_filter f = true ->
+      static_passes re args (vf_op f, vf_arg f) v = true.
+
+  Lemma filters_on_In vtx p f : In f (filters_on vtx p) <-> In f (v_filters vtx) /\ vf_field f = p.
+  Proof. unfold filters_on. rewrite filter_In. now rewrite String.eqb_eq. Qed.
+
+  (* statically_required_property reports a candidate only where filters bind ... *)
+  Lemma static_hint_binding vi p c : statically_required q args vi p = Ok (Some c) -> non_binding vi = false.
+  Proof. unfold statically_required. destruct (non_binding vi); [discriminate|reflexivity]. Qed.
+
+  (* ... and the candidate contains every value passing all the variable-operand filters on p *)
+  Theorem static_hint_sound vi p c vtx v :
+    wf v = true -> statically_required q args vi p = Ok (Some c) -> current_vertex q vi = Ok vtx ->
+    nullability_respected vtx p v -> static_filters_pass vtx p v ->
+    f_cand_ok c = true /\ f_mem c v = true.
+  Proof.
+    intros Wv H Hv Hn Hp. unfold statically_required in H. destruct (non_binding vi); [discriminate|].
+    rewrite Hv in H. cbn [bind] in H.
+    destruct (filter is_static_filter (filters_on vtx p)) as [|f0 rest] eqn:F; [discriminate|].
+    invb H as c0 Hc0. apply debug_assert_passthrough in H. subst c0.
+    destruct (filter_In_fst _ _ _ _ F) as [Hf0 _]. apply filters_on_In in Hf0. destruct Hf0 as [Hf0a Hf0b].
+    destruct (static_candidate_sound re args Hargs _ _ c v Wv (Hn f0 Hf0a Hf0b) Hc0) as [Okc Hm].
+    split; [assumption|]. apply Hm. intros f Hf. apply in_map_iff in Hf. destruct Hf as (f' & <- & Hf').
+    rewrite <- F in Hf'. apply filter_In in Hf'. destruct Hf' as [Hf1 Hf2]. apply filters_on_In in Hf1.
+    destruct Hf1. now apply Hp.
+  Qed.
+
+  (* ---- dynamic ---- *)
+  Lemma cand_from_op_sound nr op init t k v :
+    wf v = true -> (forall w, t = TSome w -> wf w = true) -> f_cand_ok init = true ->
+    op <> GreaterThanOrEqual ->
+    cand_from_op nr op init t = Ok k -> f_mem init v = true ->
+    filter_passes re op true v (Some t) = true ->
+    f_cand_ok k = true /\ f_mem k v = true.
+  Proof.
+    intros Wv Wt Hi Hge H Hm Hp.
+    destruct t as [|w].
+    { destruct op; cbn in H; try discriminate; injection H as <-; auto. }
+    specialize (Wt w eq_refl). unfold filter_passes in Hp. cbn [negb] in Hp.
+    assert (R : forall b n, f_range_with_end b n = Ok (mkRange Unb b n) \/ exists s, f_range_with_end b n = Panic s).
+    { intros b n. unfold f_range_with_end, range_with_end, assert_bound_not_null.
+      destruct b as [x|x|]; cbn; try (destruct (fv_is_null x); cbn); eauto. }
+    assert (INT : forall op' c', op_cand nr op' w = Some c' -> holds re op' v w = true ->
+              f_intersect init c' = Ok k -> f_cand_ok k = true /\ f_mem k v = true).
+    { intros op' c' Hc Hh Hint.
+      pose proof (op_cand_ok re nr op' v w c' Wv Wt Hc Hh) as Okc.
+      split; [exact (f_intersect_det init c' k Hi Okc Hint)|].
+      rewrite (f_mem_intersect init c' k v Hi Okc Wv Hint), Hm.
+      exact (candidate_sound re nr op' v w c' Wv Wt Hc Hh). }
+    destruct op; cbn [opk_unary] in Hp; cbn [cand_from_op] in H; try discriminate; try congruence.
+    - (* = *) eapply (INT Equals); eauto. reflexivity.
+    - (* != *) split; [exact (f_exclude_det init w k Hi H)|].
+      eapply f_exclude_sup; eauto. rewrite (holds_not_equals re v w Wv Wt) in Hp.
+      rewrite (eq_t_eqT v w Wv Wt). now destruct (eqT v w).
+    - (* < *) invb H as r Hr. apply range_with_end_ok in Hr. destruct Hr as [-> _].
+      eapply (INT LessThan); eauto. reflexivity.
+    - (* <= *) invb H as r Hr. apply range_with_end_ok in Hr. destruct Hr as [-> _].
+      eapply (INT LessThanOrEqual); eauto. reflexivity.
+    - (* > *) invb H as r Hr. apply range_with_start_ok in Hr. destruct Hr as [-> _].
+      eapply (INT GreaterThan); eauto. reflexivity.
+    - (* one_of *) destruct (holds_one_of_shape re v w Hp) as [l ->].
+      eapply (INT OneOf); eauto. reflexivity.
+  Qed.
+
+  Lemma choose_filter_In first relevant : In first relevant -> In (choose_filter first relevant) relevant.
+  Proof.
+    intros Hf. unfold choose_filter, first_with.
+    destruct (find _ relevant) eqn:F1; [now apply find_some in F1|].
+    destruct (find (fun f => opk_eqb (vf_op f) OneOf) relevant) eqn:F2; [now apply find_some in F2|].
+    destruct (find (fun f => is_cmp_op (vf_op f)) relevant) eqn:F3; [now apply find_some in F3|assumption].
+  Qed.
+
+  (* the DynamicallyResolvedValue describes one tag-operand filter of the vertex on p, and its initial
+     candidate is a sound static candidate *)
+  Theorem dynamic_hint_structure vi p dv vtx :
+    dynamically_required q args vi p = Ok (Some dv) -> current_vertex q vi = Ok vtx ->
+    non_binding vi = false /\ dv_start dv = vi_start vi /\
+    (exists f, In f (v_filters vtx) /\ vf_field f = p /\ vf_op f = dv_op dv /\
+               vf_arg f = Some (ATag (dv_field dv)) /\ is_dynamic_filter (vi_front vi) f = true) /\
+    (forall v, wf v = true -> nullability_respected vtx p v -> static_filters_pass vtx p v ->
+               f_cand_ok (dv_init dv) = true /\ f_mem (dv_init dv) v = true).
+  Proof.
+    intros H Hv. unfold dynamically_required in H. destruct (non_binding vi) eqn:NB; [discriminate|].
+    rewrite Hv in H. cbn [bind] in H.
+    destruct (filter (is_dynamic_filter (vi_front vi)) (filters_on vtx p)) as [|first rest] eqn:F; [discriminate|].
+    invb H as st Hst.
+    set (f := choose_filter first (first :: rest)) in *.
+    assert (Hf : In f (first :: rest)) by (apply choose_filter_In; now left).
+    rewrite <- F in Hf. apply filter_In in Hf. destruct Hf as [Hf1 Hf2]. apply filters_on_In in Hf1.
+    destruct Hf1 as [Hf1a Hf1b].
+    destruct (vf_arg f) as [[field|x t]|] eqn:A; try discriminate.
+    invb H as sc Hsc. injection H as <-. cbn [dv_start dv_field dv_op dv_init].
+    split; [reflexivity|]. split; [reflexivity|]. split; [exists f; auto|].
+    intros v Wv Hn Hp. destruct st as [k|].
+    - eapply static_hint_sound; eauto.
+    - destruct (filter_In_fst _ _ _ _ F) as [Hfi _]. apply filters_on_In in Hfi. destruct Hfi as [Hfa Hfb].
+      destruct (ty_nullable (vf_fty first)) eqn:Nu; [split; reflexivity|].
+      split; [reflexivity|]. unfold f_mem, Cand.mem, Cand.contains. now rewrite (Hn first Hfa Hfb Nu).
+  Qed.
+
+  (* dynamic_hint_sound: outside `>=` (F10) the resolved candidate contains every value that passes the
+     variable filters on p and the chosen tag filter, whatever the tag's value t is *)
+  Theorem dynamic_hint_sound vi p dv vtx nr t k v :
+    dynamically_required q args vi p = Ok (Some dv) -> current_vertex q vi = Ok vtx ->
+    dv_op dv <> GreaterThanOrEqual ->
+    wf v = true -> (forall w, t = TSome w -> wf w = true) ->
+    nullability_respected vtx p v -> static_filters_pass vtx p v ->
+    filter_passes re (dv_op dv) true v (Some t) = true ->
+    cand_from_op nr (dv_op dv) (dv_init dv) t = Ok k ->
+    f_cand_ok k = true /\ f_mem k v = true.
+  Proof.
+    intros H Hv Hge Wv Wt Hn Hp Hpass Hk.
+    destruct (dynamic_hint_structure vi p dv vtx H Hv) as (_ & _ & _ & Hinit).
+    destruct (Hinit v Wv Hn Hp) as [Oki Hmi].
+    eapply cand_from_op_sound; eauto.
+  Qed.
+
+  (* no panic when the tag value has the shape the operator expects (the complement of K-null-tag-hint) *)
+  Theorem cand_from_op_total nr op init w :
+    f_cand_ok init = true -> wf w = true -> dyn_supported_op op = true ->
+    (is_cmp_op op = true -> fv_is_null w = false) -> (op = OneOf -> exists l, w = List l) ->
+    exists k, cand_from_op nr op init (TSome w) = Ok k /\ f_cand_ok k = true.
+  Proof.
+    intros Hi Ww Hs Hc Ho.
+    assert (RE : forall b n, bound_not_null fv_is_null b = true -> f_range_with_end b n = Ok (mkRange Unb b n)).
+    { intros b n Hb. unfold f_range_with_end, range_with_end, assert_bound_not_null.
+      destruct b as [x|x|]; cbn in *; try (apply negb_true_iff in Hb; rewrite Hb); reflexivity. }
+    assert (RS : forall b n, bound_not_null fv_is_null b = true -> f_range_with_start b n = Ok (mkRange b Unb n)).
+    { intros b n Hb. unfold f_range_with_start, range_with_start, assert_bound_not_null.
+      destruct b as [x|x|]; cbn in *; try (apply negb_true_iff in Hb; rewrite Hb); reflexivity. }
+    assert (I : forall c, f_cand_ok c = true -> exists k, f_intersect init c = Ok k /\ f_cand_ok k = true)
+      by (intros c Hc'; apply f_intersect_total; assumption).
+    destruct op; try discriminate; cbn [cand_from_op].
+    - apply I. unfold f_cand_ok. cbn. exact Ww.
+    - destruct (f_exclude_total init w) as (k & E & Hk). eauto.
+    - specialize (Hc eq_refl). rewrite RE by (cbn; now rewrite Hc). cbn [bind].
+      apply I. apply cand_ok_range; cbn; auto. now rewrite Hc.
+    - specialize (Hc eq_refl). rewrite RE by (cbn; now rewrite Hc). cbn [bind].
+      apply I. apply cand_ok_range; cbn; auto. now rewrite Hc.
+    - specialize (Hc eq_refl). rewrite RS by (cbn; now rewrite Hc). cbn [bind].
+      apply I. apply cand_ok_range; cbn; auto. now rewrite Hc.
+    - specialize (Hc eq_refl). rewrite RE by (cbn; now rewrite Hc). cbn [bind].
+      apply I. apply cand_ok_range; cbn; auto. now rewrite Hc.
+    - destruct (Ho eq_refl) as [l ->]. apply I. unfold f_cand_ok. cbn. exact Ww.
+  Qed.
+
+  (* ---- binding / non-binding ---- *)
+  Theorem non_binding_no_hints vi p name : non_binding vi = true ->
+    statically_required q args vi p = Ok None /\ dynamically_required q args vi p = Ok None /\
+    mandatory_edges_with_name q args vi name = Ok [].
+  Proof.
+    intros H. unfold statically_required, dynamically_required, mandatory_edges_with_name. now rewrite H.
+  Qed.
+
+  (* the destination of the edge being resolved is non-binding exactly for @optional edges and
+     @recurse to depth >= 2; the destination of a fold being resolved always binds *)
+  Theorem destination_binding_edge origin e :
+    step_of_eid (q_comp q) (e_eid e) = Some (SEdge e) ->
+    exists vi, resolve_edge_info_destination q origin (e_to e) (e_eid e) = Ok vi /\
+               vi_vid vi = e_to e /\ vi_start vi = origin /\ vi_front vi = FExcl (e_to e) /\
+               non_binding vi = e_optional e || match e_rec e with Some r => 2 <=? r_depth r | None => false end.
+  Proof.
+    intros H. unfold resolve_edge_info_destination, resolve_edge_info_edge. rewrite H, N.eqb_refl. cbn.
+    eexists. split; [reflexivity|]. cbn. unfold non_binding, locally_non_binding. cbn. auto.
+  Qed.
+
+  Theorem destination_binding_fold origin h sub :
+    step_of_eid (q_comp q) (fo_eid h) = Some (SFold h sub) ->
+    exists vi, resolve_edge_info_destination q origin (fo_to h) (fo_eid h) = Ok vi /\
+               vi_vid vi = fo_to h /\ vi_start vi = origin /\ vi_front vi = FExcl (fo_to h) /\ non_binding vi = false.
+  Proof.
+    intros H. unfold resolve_edge_info_destination, resolve_edge_info_edge. rewrite H, N.eqb_refl. cbn.
+    eexists. split; [reflexivity|]. cbn. auto.
+  Qed.
+
+  (* what mandatory_edges_with_name lists: non-optional non-recursive edges of the vertex, and folds
+     required to be non-empty; the hints keep binding across them (and only across them) *)
+  Theorem mandatory_edge_structure vi name ms m :
+    mandatory_edges_with_name q args vi name = Ok ms -> In m ms ->
+    non_binding vi = false /\ non_binding (ei_dest m) = false /\
+    vi_start (ei_dest m) = vi_start vi /\ vi_front (ei_dest m) = vi_front vi /\
+    exists comp, current_component q vi = Ok comp /\
+      ((exists e, In (SEdge e) (c_steps comp) /\ e_eid e = ei_eid m /\ e_from e = vi_vid vi /\ e_name e = name /\
+                  e_params e = ei_params m /\ vi_vid (ei_dest m) = e_to e /\
+                  e_optional e = false /\ e_rec e = None) \/
+       (exists h sub, In (SFold h sub) (c_steps comp) /\ fo_eid h = ei_eid m /\ fo_from h = vi_vid vi /\
+                  fo_name h = name /\ fo_params h = ei_params m /\ vi_vid (ei_dest m) = fo_to h /\
+                  fold_requires_nonempty args h = Ok true)).
+  Proof.
+    intros H Hm. unfold mandatory_edges_with_name in H. destruct (non_binding vi) eqn:NB; [injection H as <-; contradiction|].
+    invb H as es Hes. injection H as <-. apply filter_In in Hm. destruct Hm as [Hm Hmand].
+    unfold edges_with_name in Hes. invb Hes as comp Hcomp. invb Hes as v Hv. invb Hes as folded Hfolded.
+    injection Hes as <-.
+    assert (Ev : v_vid v = vi_vid vi).
+    { unfold current_vertex in Hv. rewrite Hcomp in Hv. cbn [bind] in Hv. apply expect_some_ok in Hv.
+      now apply find_vertex_some in Hv. }
+    unfold non_binding in NB. apply orb_false_iff in NB. destruct NB as [NB1 NB2].
+    split; [reflexivity|].
+    apply in_app_or in Hm. destruct Hm as [Hm|Hm].
+    - apply in_flat_map in Hm. destruct Hm as (s & Hs & Hm). destruct s as [e|h sub]; [|contradiction].
+      destruct (N.eqb (e_from e) (v_vid v) && String.eqb (e_name e) name) eqn:C; [|contradiction].
+      destruct Hm as [<-|[]]. apply andb_prop in C. destruct C as [C1 C2].
+      apply N.eqb_eq in C1. apply String.eqb_eq in C2.
+      unfold ei_mandatory in Hmand. cbn in Hmand. apply andb_prop in Hmand. destruct Hmand as [Hopt Hrec].
+      apply negb_true_iff in Hopt. destruct (e_rec e) eqn:R; [discriminate|].
+      cbn. unfold non_binding, locally_non_binding. cbn. rewrite R, Hopt, NB1.
+      destruct (vi_is_resolve vi); (split; [reflexivity|]); (split; [reflexivity|]); (split; [reflexivity|]);
+        exists comp; (split; [reflexivity|]); left; exists e; rewrite <- Ev; auto 10.
+    - destruct (flat_mapM_In _ _ _ _ Hfolded Hm) as (s & ys & Hs & Hys & Hmy).
+      destruct s as [e|h sub]; [injection Hys as <-; contradiction|].
+      destruct (N.eqb (fo_from h) (v_vid v) && String.eqb (fo_name h) name) eqn:C; [|injection Hys as <-; contradiction].
+      invb Hys as e0 He0. injection Hys as <-. destruct Hmy as [<-|[]].
+      apply andb_prop in C. destruct C as [C1 C2]. apply N.eqb_eq in C1. apply String.eqb_eq in C2.
+      unfold make_folded in He0. invb He0 as req Hreq. injection He0 as <-.
+      unfold ei_mandatory in Hmand. cbn in Hmand. destruct req; [|discriminate].
+      cbn. unfold non_binding. cbn. rewrite NB1.
+      destruct (vi_is_resolve vi); (split; [reflexivity|]); (split; [reflexivity|]); (split; [reflexivity|]);
+        exists comp; (split; [reflexivity|]); right; exists h, sub; rewrite <- Ev; auto 10.
+  Qed.
+End Vertex.
